@@ -3,7 +3,7 @@
    sentinel digest [256] (not a byte string), which propagates through every later hash
    and makes the case FAIL: a missing entry is a correspondence error, never a pass. *)
 From Coq Require Import Uint63 FMapPositive.
-From LP Require Import Prelude Pay Merkle.
+From LP Require Import Prelude Pay Semver Merkle.
 Local Open Scope N_scope.
 
 (* Byte strings in case files are written with primitive 63-bit integer literals (the only
@@ -66,6 +66,8 @@ Definition rb_eqb := result_eqb Bool.eqb.
 Inductive wl_op :=
 | WExec (now sender : N) (m : wl_msg) (ok : bool) (root_after : list N)
 | WUnknown (now sender : N) (ok : bool) (root_after : list N)   (* JSON that is not an ExecuteMsg *)
+(* migrate_contract after the stored cw2 record was rewritten to (name, version) *)
+| WMigrate (by_admin name_ok : bool) (ver : option version) (ok : bool) (root_after : list N)
 | WQuery (member : list N) (proof : list (list N)) (out : result bool).
 
 Fixpoint wl_steps (H : list N -> list N) (s : wl_state) (ops : list wl_op) : bool :=
@@ -77,6 +79,11 @@ Fixpoint wl_steps (H : list N -> list N) (s : wl_state) (ops : list wl_op) : boo
       | Err => negb ok && str_eqb (wl_root s) root_after && wl_steps H s r
       end
   | WUnknown _ _ ok root_after :: r => negb ok && str_eqb (wl_root s) root_after && wl_steps H s r
+  | WMigrate a n v ok root_after :: r =>
+      match wl_migrate a n v s with
+      | Ok s' => ok && str_eqb (wl_root s') root_after && wl_steps H s' r
+      | Err => negb ok && str_eqb (wl_root s) root_after && wl_steps H s r
+      end
   | WQuery m p out :: r =>
       rb_eqb (wl_has_member H s m p) out && final_hit 32 H m p && wl_steps H s r
   end.
@@ -84,6 +91,7 @@ Fixpoint wl_steps (H : list N -> list N) (s : wl_state) (ops : list wl_op) : boo
 Inductive tw_op :=
 | TExec (now sender : N) (m : tw_msg) (ok : bool) (roots_after : list (list N))
 | TUnknown (now sender : N) (ok : bool) (roots_after : list (list N))
+| TMigrate (by_admin name_ok : bool) (ver : option version) (ok : bool) (roots_after : list (list N))
 | TQuery (now : N) (member : list N) (proof : list (list N)) (out : result bool).
 
 Fixpoint tw_steps (H : list N -> list N) (s : tw_state) (ops : list tw_op) : bool :=
@@ -95,6 +103,11 @@ Fixpoint tw_steps (H : list N -> list N) (s : tw_state) (ops : list tw_op) : boo
       | Err => negb ok && list_eqb str_eqb (tw_roots s) roots_after && tw_steps H s r
       end
   | TUnknown _ _ ok roots_after :: r => negb ok && list_eqb str_eqb (tw_roots s) roots_after && tw_steps H s r
+  | TMigrate a n v ok roots_after :: r =>
+      match tw_migrate a n v s with
+      | Ok s' => ok && list_eqb str_eqb (tw_roots s') roots_after && tw_steps H s' r
+      | Err => negb ok && list_eqb str_eqb (tw_roots s) roots_after && tw_steps H s r
+      end
   | TQuery now m p out :: r =>
       rb_eqb (tw_has_member H now s m p) out && final_hit 16 H m p && tw_steps H s r
   end.
